@@ -176,6 +176,10 @@ type normaliser struct {
 	edits  map[string][]textEdit // absolute file → edits
 	addImp map[string]map[string]string
 	litOf  map[*types.Var]*ast.FuncLit // parameters of expanded helpers that are bound to a function literal
+	local  map[*types.Var]*localClosure
+	// the statement being looked at by the driver, the one after it in its list, and whether it ends a result-less function
+	cur, next  ast.Stmt
+	lastOfBody bool
 }
 
 func (N *normaliser) src(file string) []byte {
@@ -201,7 +205,9 @@ type calleeDesc struct {
 	recv   *ast.FieldList
 	body   *ast.BlockStmt
 	sig    *types.Signature
-	reason string       // why it cannot be expanded in general ("" = it can; "defer" = only in tail position)
+	reason string        // why it cannot be expanded in general ("" = it can; "defer" = only in tail position)
+	local  *localClosure // for a local closure that is only ever called: expanded at each of its calls
+	targs  map[*types.TypeParam]types.Type
 	lit    *ast.FuncLit // for a literal: the literal (blanked once its call is expanded)
 	fn     *types.Func  // for a declared function
 }
@@ -236,6 +242,68 @@ func (N *normaliser) staticCallee(pkg *packages.Package, call *ast.CallExpr) (*t
 	return nil, nil
 }
 
+// localClosure: `name := func(…) {…}` whose every use is a call `name(…)`.
+type localClosure struct {
+	v        *types.Var
+	lit      *ast.FuncLit
+	def      *ast.AssignStmt
+	uses     int
+	expanded int
+}
+
+// localClosures finds the local closures of the repository packages that are only ever called.
+func localClosures(pkgs []*packages.Package) map[*types.Var]*localClosure {
+	out := map[*types.Var]*localClosure{}
+	for _, p := range pkgs {
+		if !strings.HasPrefix(p.PkgPath, "github.com/jhalter/mobius") {
+			continue
+		}
+		callFun := map[*ast.Ident]bool{}
+		for _, f := range p.Syntax {
+			ast.Inspect(f, func(n ast.Node) bool {
+				switch x := n.(type) {
+				case *ast.CallExpr:
+					if id, ok := x.Fun.(*ast.Ident); ok {
+						callFun[id] = true
+					}
+				case *ast.AssignStmt:
+					if x.Tok == token.DEFINE && len(x.Lhs) == 1 && len(x.Rhs) == 1 {
+						if id, ok := x.Lhs[0].(*ast.Ident); ok && !strings.HasPrefix(id.Name, "__") {
+							if fl, ok := x.Rhs[0].(*ast.FuncLit); ok {
+								if v, ok := p.TypesInfo.Defs[id].(*types.Var); ok {
+									out[v] = &localClosure{v: v, lit: fl, def: x}
+								}
+							}
+						}
+					}
+				}
+				return true
+			})
+		}
+		for id, o := range p.TypesInfo.Uses {
+			v, ok := o.(*types.Var)
+			if !ok {
+				continue
+			}
+			lc := out[v]
+			if lc == nil {
+				continue
+			}
+			if !callFun[id] || (id.Pos() >= lc.lit.Pos() && id.Pos() < lc.lit.End()) {
+				delete(out, v)
+				continue
+			}
+			lc.uses++
+		}
+	}
+	for v, lc := range out {
+		if lc.uses == 0 {
+			delete(out, v)
+		}
+	}
+	return out
+}
+
 // litCallee: call of a local variable that is defined exactly once, by a function literal, and used exactly once
 // (this call) inside a function introduced by an expansion or outside the vocabulary.
 func (N *normaliser) litCallee(pkg *packages.Package, call *ast.CallExpr) *calleeDesc {
@@ -246,6 +314,15 @@ func (N *normaliser) litCallee(pkg *packages.Package, call *ast.CallExpr) *calle
 	v, ok := pkg.TypesInfo.Uses[id].(*types.Var)
 	if !ok || v.IsField() || v.Parent() == nil || v.Parent() == pkg.Types.Scope() {
 		return nil
+	}
+	if lc := N.local[v]; lc != nil {
+		sig, _ := pkg.TypesInfo.TypeOf(lc.lit).(*types.Signature)
+		if sig == nil {
+			return nil
+		}
+		d := &calleeDesc{name: "local closure " + v.Name(), pkg: pkg, ftype: lc.lit.Type, body: lc.lit.Body, sig: sig, lit: lc.lit, local: lc}
+		d.reason = bodyReason(pkg, lc.lit.Body, nil)
+		return d
 	}
 	if !strings.HasPrefix(v.Name(), "__p") {
 		return nil // only parameters of expanded helpers (bound by the expansion itself, never reassigned by construction)
@@ -304,7 +381,29 @@ func (N *normaliser) descOf(pkg *packages.Package, call *ast.CallExpr) (*calleeD
 	if o, recv := N.staticCallee(pkg, call); o != nil {
 		if c, isCand := N.cands[o]; isCand {
 			sig := o.Type().(*types.Signature)
-			return &calleeDesc{name: c.name, pkg: c.pkg, ftype: c.fd.Type, recv: c.fd.Recv, body: c.fd.Body, sig: sig, reason: N.reason[o], fn: o}, recv
+			d := &calleeDesc{name: c.name, pkg: c.pkg, ftype: c.fd.Type, recv: c.fd.Recv, body: c.fd.Body, sig: sig, reason: N.reason[o], fn: o}
+			if d.reason == "type parameters" {
+				// a generic function called with inferred type arguments: expanded with the arguments of this instance
+				var id *ast.Ident
+				switch f := call.Fun.(type) {
+				case *ast.Ident:
+					id = f
+				case *ast.SelectorExpr:
+					id = f.Sel
+				}
+				inst, ok := pkg.TypesInfo.Instances[id]
+				isig, _ := inst.Type.(*types.Signature)
+				if id == nil || !ok || isig == nil || sig.TypeParams().Len() != inst.TypeArgs.Len() {
+					return d, recv
+				}
+				d.sig = isig
+				d.targs = map[*types.TypeParam]types.Type{}
+				for i := 0; i < sig.TypeParams().Len(); i++ {
+					d.targs[sig.TypeParams().At(i)] = inst.TypeArgs.At(i)
+				}
+				d.reason = bodyReason(c.pkg, c.fd.Body, o)
+			}
+			return d, recv
 		}
 		return nil, nil
 	}
@@ -377,10 +476,7 @@ func (N *normaliser) firstEligibleCall(pkg *packages.Package, s ast.Stmt) (*ast.
 		return nil, nil, nil
 	}
 	// tail position: `return f(…)` — the callee's defers run where they ran before
-	isTail := func(c *ast.CallExpr) bool {
-		rs, ok := s.(*ast.ReturnStmt)
-		return ok && len(rs.Results) == 1 && rs.Results[0] == ast.Expr(c)
-	}
+	isTail := func(c *ast.CallExpr) bool { return N.siteIsTail(s, c) }
 	var found *ast.CallExpr
 	var fdesc *calleeDesc
 	var frecv ast.Expr
@@ -419,7 +515,7 @@ func (N *normaliser) firstEligibleCall(pkg *packages.Package, s ast.Stmt) (*ast.
 					return
 				}
 			}
-			if d, recv := N.descOf(pkg, x); d != nil && (d.reason == "" || d.reason == "defer" && isTail(x)) {
+			if d, recv := N.descOf(pkg, x); d != nil && (d.reason == "" || d.reason == "defer" && (isTail(x) || simpleDefers(d.body) != nil)) {
 				found, fdesc, frecv = x, d, recv
 				return
 			}
@@ -465,6 +561,86 @@ func (N *normaliser) firstEligibleCall(pkg *packages.Package, s ast.Stmt) (*ast.
 		return nil, nil, nil
 	}
 	return found, fdesc, frecv
+}
+
+// simpleDefers: the defer statements of a body when every one of them is a statement of the body's own list (none
+// in a branch or loop) and defers a plain call — named function or method on a variable / field chain, arguments
+// that are variables, fields or literals; nil otherwise, or when there is none.
+func simpleDefers(body *ast.BlockStmt) []*ast.DeferStmt {
+	var out []*ast.DeferStmt
+	top := map[*ast.DeferStmt]bool{}
+	for _, st := range body.List {
+		if ds, ok := st.(*ast.DeferStmt); ok {
+			top[ds] = true
+			out = append(out, ds)
+		}
+	}
+	plain := func(e ast.Expr) bool {
+		for {
+			switch y := e.(type) {
+			case *ast.Ident, *ast.BasicLit:
+				return true
+			case *ast.SelectorExpr:
+				e = y.X
+			case *ast.ParenExpr:
+				e = y.X
+			default:
+				return false
+			}
+		}
+	}
+	ok := true
+	ast.Inspect(body, func(n ast.Node) bool {
+		switch x := n.(type) {
+		case *ast.FuncLit:
+			return false
+		case *ast.DeferStmt:
+			if !top[x] || !plain(x.Call.Fun) {
+				ok = false
+			}
+			for _, a := range x.Call.Args {
+				if !plain(a) {
+					ok = false
+				}
+			}
+		}
+		return ok
+	})
+	if !ok || len(out) == 0 {
+		return nil
+	}
+	return out
+}
+
+// isFuncValue: a named function, or a method value whose receiver expression is a plain variable / field chain.
+func isFuncValue(pkg *packages.Package, e ast.Expr) bool {
+	switch x := e.(type) {
+	case *ast.Ident:
+		_, ok := pkg.TypesInfo.Uses[x].(*types.Func)
+		return ok
+	case *ast.SelectorExpr:
+		if _, ok := pkg.TypesInfo.Uses[x.Sel].(*types.Func); !ok {
+			return false
+		}
+		r := ast.Expr(x.X)
+		for {
+			switch y := r.(type) {
+			case *ast.Ident:
+				switch pkg.TypesInfo.Uses[y].(type) {
+				case *types.Var, *types.PkgName:
+					return true
+				}
+				return false
+			case *ast.SelectorExpr:
+				r = y.X
+			case *ast.ParenExpr:
+				r = y.X
+			default:
+				return false
+			}
+		}
+	}
+	return false
 }
 
 func containsCall(pkg *packages.Package, n ast.Node) bool {
@@ -520,11 +696,46 @@ func (N *normaliser) typeText(pkg *packages.Package, file *ast.File, t types.Typ
 	})
 }
 
+// siteIsTail: nothing of the enclosing function runs after the call but the hand-over of its results — `return f(…)`,
+// or, inside an expansion that itself stood in tail position, `r = f(…); break __LT…` (the shape a `return f(…)` of
+// the expanded body was given), or a result-less call that is the last statement of the function / precedes a bare
+// return or such a break. A callee's defers then run where they ran before.
+func (N *normaliser) siteIsTail(s ast.Stmt, c *ast.CallExpr) bool {
+	tailBreak := func(n ast.Stmt) bool {
+		b, ok := n.(*ast.BranchStmt)
+		return ok && b.Tok == token.BREAK && b.Label != nil && strings.HasPrefix(b.Label.Name, "__LT")
+	}
+	switch x := s.(type) {
+	case *ast.ReturnStmt:
+		return len(x.Results) == 1 && x.Results[0] == ast.Expr(c)
+	case *ast.AssignStmt:
+		if s != N.cur || len(x.Rhs) != 1 || x.Rhs[0] != ast.Expr(c) || x.Tok != token.ASSIGN || N.next == nil || !tailBreak(N.next) {
+			return false
+		}
+		for _, l := range x.Lhs {
+			id, ok := l.(*ast.Ident)
+			if !ok || !strings.HasPrefix(id.Name, "__r") {
+				return false
+			}
+		}
+		return true
+	case *ast.ExprStmt:
+		if s != N.cur || x.X != ast.Expr(c) {
+			return false
+		}
+		if N.next == nil {
+			return N.lastOfBody
+		}
+		if r, ok := N.next.(*ast.ReturnStmt); ok && len(r.Results) == 0 {
+			return true
+		}
+		return tailBreak(N.next)
+	}
+	return false
+}
+
 // expand builds the edits for one call site; returns a reason when it cannot.
 func (N *normaliser) expand(pkg *packages.Package, file *ast.File, encl *ast.FuncDecl, s ast.Stmt, call *ast.CallExpr, d *calleeDesc, recvExpr ast.Expr) string {
-	if d.pkg.Types != pkg.Types {
-		return "callee in another package"
-	}
 	sig := d.sig
 	if sig.Variadic() {
 		return "variadic"
@@ -542,6 +753,10 @@ func (N *normaliser) expand(pkg *packages.Package, file *ast.File, encl *ast.Fun
 		rnames[i] = fmt.Sprintf("__r%d_%d", id, i)
 	}
 	label := fmt.Sprintf("__L%d", id)
+	if N.siteIsTail(s, call) {
+		// a `break` to this label is followed by nothing but the return of the enclosing function
+		label = fmt.Sprintf("__LT%d", id)
+	}
 	// ---- receiver, parameters and named results get names of their own (so that they cannot shadow a name the
 	// caller's argument expressions or a function literal among them refer to)
 	rename := map[types.Object]string{}
@@ -625,9 +840,44 @@ func (N *normaliser) expand(pkg *packages.Package, file *ast.File, encl *ast.Fun
 	bodyEnd := N.fset.Position(d.body.Rbrace).Offset
 	var bedits []textEdit
 	capture := ""
+	// a callee with defers away from tail position: its (simple, top-level) deferred calls are spelled out at every
+	// exit that comes after them, last first. What is lost is only that they also ran when the body panicked.
+	var lowered []*ast.DeferStmt
+	var loweredText []string
+	if d.reason == "defer" && !N.siteIsTail(s, call) {
+		lowered = simpleDefers(d.body)
+		if lowered == nil {
+			return "defer away from tail position"
+		}
+		for _, ds := range lowered {
+			// spelled `(f)(args)`: the parentheses are how the rules recognise a call that was deferred (loweredDefer)
+			var args []string
+			for _, a := range ds.Call.Args {
+				args = append(args, N.rewriteExpr(pkg, file, d, rename, a, call.Pos(), &capture))
+			}
+			loweredText = append(loweredText, "("+N.rewriteExpr(pkg, file, d, rename, ds.Call.Fun, call.Pos(), &capture)+")("+strings.Join(args, ", ")+")")
+		}
+	}
+	runDefers := func(at token.Pos) string {
+		t := ""
+		for i := len(lowered) - 1; i >= 0; i-- {
+			if lowered[i].End() <= at {
+				t += loweredText[i] + "; "
+			}
+		}
+		return t
+	}
 	var walk func(n ast.Node) bool
 	walk = func(n ast.Node) bool {
 		switch x := n.(type) {
+		case *ast.DeferStmt:
+			for _, ds := range lowered {
+				if ds == x {
+					p, e := N.fset.Position(x.Pos()).Offset, N.fset.Position(x.End()).Offset
+					bedits = append(bedits, textEdit{p, e - p, "{}"})
+					return false
+				}
+			}
 		case *ast.FuncLit:
 			// returns inside belong to the literal; identifiers inside still need the renaming / capture treatment
 			ast.Inspect(x.Body, func(m ast.Node) bool {
@@ -642,15 +892,15 @@ func (N *normaliser) expand(pkg *packages.Package, file *ast.File, encl *ast.Fun
 			var t string
 			switch {
 			case nres == 0:
-				t = "{ break " + label + " }"
+				t = "{ " + runDefers(x.Pos()) + "break " + label + " }"
 			case len(x.Results) == 0:
-				t = "{ " + strings.Join(rnames, ", ") + " = " + strings.Join(named, ", ") + "; break " + label + " }"
+				t = "{ " + runDefers(x.Pos()) + strings.Join(rnames, ", ") + " = " + strings.Join(named, ", ") + "; break " + label + " }"
 			default:
 				var parts []string
 				for _, r := range x.Results {
 					parts = append(parts, N.rewriteExpr(pkg, file, d, rename, r, call.Pos(), &capture))
 				}
-				t = "{ " + strings.Join(rnames, ", ") + " = " + strings.Join(parts, ", ") + "; break " + label + " }"
+				t = "{ " + strings.Join(rnames, ", ") + " = " + strings.Join(parts, ", ") + "; " + runDefers(x.Pos()) + "break " + label + " }"
 			}
 			bedits = append(bedits, textEdit{p, e - p, t})
 			return false
@@ -687,7 +937,7 @@ func (N *normaliser) expand(pkg *packages.Package, file *ast.File, encl *ast.Fun
 		fmt.Fprintf(&sb, "%s = %s; ", strings.Join(blank, ", "), strings.Join(use, ", "))
 	}
 	sb.WriteString(namedDecl.String())
-	fmt.Fprintf(&sb, "\n%s: switch { default:\n%s\nbreak %s\n} }\n", label, body, label)
+	fmt.Fprintf(&sb, "\n%s: switch { default:\n%s\n%sbreak %s\n} }\n", label, body, runDefers(d.body.Rbrace), label)
 	// ---- the call site
 	fn := N.fset.Position(s.Pos()).Filename
 	sOff := N.fset.Position(s.Pos()).Offset
@@ -729,7 +979,9 @@ func (N *normaliser) expand(pkg *packages.Package, file *ast.File, encl *ast.Fun
 		}
 	}
 	N.edits[fn] = append(N.edits[fn], textEdit{sOff, 0, sb.String()}, textEdit{cOff, cEnd - cOff, repl})
-	if d.lit != nil {
+	if d.local != nil {
+		d.local.expanded++
+	} else if d.lit != nil {
 		// the literal has been expanded at its only call: it must not stay behind as a second, dead copy
 		lf := N.fset.Position(d.lit.Pos()).Filename
 		lo, le := N.fset.Position(d.lit.Pos()).Offset, N.fset.Position(d.lit.End()).Offset
@@ -756,6 +1008,15 @@ func (N *normaliser) identEdit(pkg *packages.Package, file *ast.File, d *calleeD
 		*edits = append(*edits, textEdit{p, len(idn.Name), nn})
 		return
 	}
+	if tn, ok := o.(*types.TypeName); ok && d.targs != nil {
+		if tp, ok := tn.Type().(*types.TypeParam); ok {
+			if ta := d.targs[tp]; ta != nil {
+				p := N.fset.Position(idn.Pos()).Offset
+				*edits = append(*edits, textEdit{p, len(idn.Name), N.typeText(pkg, file, ta)})
+				return
+			}
+		}
+	}
 	if pn, ok := o.(*types.PkgName); ok {
 		want := N.importName(pkg, file, pn.Imported().Path())
 		if want != idn.Name {
@@ -763,6 +1024,41 @@ func (N *normaliser) identEdit(pkg *packages.Package, file *ast.File, d *calleeD
 			*edits = append(*edits, textEdit{p, len(idn.Name), want})
 		}
 		return
+	}
+	if d.pkg.Types != pkg.Types && o.Pkg() == d.pkg.Types {
+		// the body is moved into another package: what it names must be nameable from there
+		if o.Parent() == d.pkg.Types.Scope() {
+			p := N.fset.Position(idn.Pos()).Offset
+			if c, ok := o.(*types.Const); ok && !o.Exported() {
+				if b, ok := c.Type().(*types.Basic); ok {
+					t := "(" + c.Val().ExactString() + ")"
+					if b.Info()&types.IsUntyped == 0 {
+						t = b.Name() + t
+					}
+					*edits = append(*edits, textEdit{p, len(idn.Name), t})
+					return
+				}
+			}
+			if !o.Exported() {
+				*capture = idn.Name + " (not exported)"
+				return
+			}
+			q := N.importName(pkg, file, d.pkg.Types.Path())
+			if sc := pkg.Types.Scope().Innermost(at); sc != nil {
+				if _, found := sc.LookupParent(q, at); found != nil {
+					if _, isPkg := found.(*types.PkgName); !isPkg {
+						*capture = q
+					}
+				}
+			}
+			*edits = append(*edits, textEdit{p, 0, q + "."})
+			return
+		}
+		if o.Parent() == nil && !o.Exported() {
+			// a field or method
+			*capture = idn.Name + " (not exported)"
+			return
+		}
 	}
 	outer := o.Parent() == d.pkg.Types.Scope() || o.Parent() == types.Universe
 	if !outer && d.lit != nil && o.Parent() != nil && !(o.Pos() >= d.lit.Pos() && o.Pos() < d.lit.End()) {
@@ -870,7 +1166,7 @@ func normalise(repo string, vocab map[string]bool) (*normInfo, error) {
 		return nil, err
 	}
 	nf := newFunctions(pkgs, vocab)
-	if len(nf) == 0 {
+	if len(nf) == 0 && len(localClosures(pkgs)) == 0 {
 		return nil, nil
 	}
 	tmp, err := os.MkdirTemp("", "hlnorm-")
@@ -900,6 +1196,7 @@ func normalise(repo string, vocab map[string]bool) (*normInfo, error) {
 			N.reason[c.obj] = inlinable(c)
 		}
 		// parameters of already expanded helpers that are bound to a function literal: `__pN_f := (func() T)(func() T {…})`
+		bound := map[*types.Var]string{}
 		for _, p := range pkgs {
 			if !strings.HasPrefix(p.PkgPath, "github.com/jhalter/mobius") {
 				continue
@@ -922,13 +1219,42 @@ func normalise(repo string, vocab map[string]bool) (*normInfo, error) {
 						}
 						if fl, ok := r.(*ast.FuncLit); ok && v != nil {
 							N.litOf[v] = fl
+						} else if v != nil && isFuncValue(p, r) {
+							bound[v] = N.text(r)
 						}
 					}
 					return true
 				})
 			}
 		}
-		if len(N.cands) == 0 && len(N.litOf) == 0 {
+		// … or to a named function / method value (`__pN_f := (func(int) bool)(cc.Authorize)`): a call of the parameter is
+		// a call of that function
+		for _, p := range pkgs {
+			if len(bound) == 0 || !strings.HasPrefix(p.PkgPath, "github.com/jhalter/mobius") {
+				continue
+			}
+			for _, f := range p.Syntax {
+				ast.Inspect(f, func(n ast.Node) bool {
+					c, ok := n.(*ast.CallExpr)
+					if !ok {
+						return true
+					}
+					id, ok := c.Fun.(*ast.Ident)
+					if !ok {
+						return true
+					}
+					v, _ := p.TypesInfo.Uses[id].(*types.Var)
+					if t, ok := bound[v]; ok && v != nil {
+						fn := N.fset.Position(id.Pos()).Filename
+						N.edits[fn] = append(N.edits[fn], textEdit{N.fset.Position(id.Pos()).Offset, len(id.Name), t})
+						info.Inlined = append(info.Inlined, "bound "+t+" ← "+id.Name)
+					}
+					return true
+				})
+			}
+		}
+		N.local = localClosures(pkgs)
+		if len(N.cands) == 0 && len(N.litOf) == 0 && len(N.edits) == 0 && len(N.local) == 0 {
 			break
 		}
 		left := map[string]bool{}
@@ -945,7 +1271,13 @@ func normalise(repo string, vocab map[string]bool) (*normInfo, error) {
 					var walkList func(list []ast.Stmt)
 					var walkStmt func(s ast.Stmt)
 					walkList = func(list []ast.Stmt) {
-						for _, s := range list {
+						for i, s := range list {
+							N.cur, N.next, N.lastOfBody = s, nil, false
+							if i+1 < len(list) {
+								N.next = list[i+1]
+							} else if len(fd.Body.List) > 0 && s == fd.Body.List[len(fd.Body.List)-1] && (fd.Type.Results == nil || len(fd.Type.Results.List) == 0) {
+								N.lastOfBody = true
+							}
 							if call, dd, recv := N.firstEligibleCall(p, s); call != nil {
 								if why := N.expand(p, f, fd, s, call, dd, recv); why == "" {
 									continue
@@ -1002,6 +1334,22 @@ func normalise(repo string, vocab map[string]bool) (*normInfo, error) {
 						}
 					}
 					walkList(fd.Body.List)
+				}
+			}
+		}
+		for _, lc := range N.local {
+			if lc.expanded == 0 {
+				continue
+			}
+			fn := N.fset.Position(lc.def.Pos()).Filename
+			so, eo := N.fset.Position(lc.def.Pos()).Offset, N.fset.Position(lc.def.End()).Offset
+			if lc.expanded == lc.uses {
+				// every call was expanded: the closure itself goes
+				N.edits[fn] = append(N.edits[fn], textEdit{so, eo - so, "{}"})
+			} else {
+				marker := "; _ = " + lc.v.Name()
+				if src := N.src(fn); !bytes.HasPrefix(src[eo:], []byte(marker)) {
+					N.edits[fn] = append(N.edits[fn], textEdit{eo, 0, marker})
 				}
 			}
 		}
